@@ -2,8 +2,12 @@ package rules
 
 import (
 	"go/ast"
+	"go/token"
 	"go/types"
 	"strings"
+
+	"golang.org/x/tools/go/cfg"
+	"golang.org/x/tools/go/packages"
 
 	"verif/internal/core"
 	"verif/internal/flow"
@@ -46,9 +50,43 @@ func c02Callers(c *core.Ctx, a *c02Anchors) {
 			}
 		}
 	}
-	if flowIdx < 0 || strIdx < 0 || boolIdx < 0 {
-		c.Errorf("R-C02-5: anchor: flow loop signature is not (…, []FlowNode, …) (string, …, bool)")
+	fieldForm := sig.Results().Len() == 0 && a.resField != nil && a.sawField != nil
+	if flowIdx < 0 || (!fieldForm && (strIdx < 0 || boolIdx < 0)) {
+		c.Undecide("R-C02-5", a.loopCons+"|flow order", pos(c, a.loopFn.Node), "the flow loop neither returns (string, …, bool) nor keeps result and END flag in fields of a run-state struct")
 		return
+	}
+	if fieldForm {
+		// the END flag and the result field are written by the flow loop (and its helpers) only
+		allowed := map[string]bool{}
+		for _, g := range reach(a.loopFn, 3) {
+			if fd, ok := g.Node.(*ast.FuncDecl); ok {
+				allowed[declName(g.Pkg, fd)] = true
+			}
+		}
+		foreign := ""
+		eachFunc(c, func(pkg *packages.Package, fd *ast.FuncDecl) {
+			if pkg.Types != a.loopObj.Pkg() || allowed[declName(pkg, fd)] {
+				return
+			}
+			ast.Inspect(fd.Body, func(n ast.Node) bool {
+				as, ok := n.(*ast.AssignStmt)
+				if !ok {
+					return true
+				}
+				for _, l := range as.Lhs {
+					if sel, ok := ast.Unparen(l).(*ast.SelectorExpr); ok {
+						if sl := pkg.TypesInfo.Selections[sel]; sl != nil && (sl.Obj() == types.Object(a.resField) || sl.Obj() == types.Object(a.sawField)) {
+							foreign = declName(pkg, fd)
+						}
+					}
+				}
+				return true
+			})
+		})
+		if foreign != "" {
+			c.Undecide("R-C02-5", a.loopCons+"|flow order", pos(c, a.loopFn.Node), "the run-state fields holding the result / END flag are also written in "+foreign)
+			return
+		}
 	}
 	with2 := 0
 	for _, cl := range callers {
@@ -56,6 +94,12 @@ func c02Callers(c *core.Ctx, a *c02Anchors) {
 		inPipeline := relPkg(cl.f.Pkg.PkgPath) == c02pl && fd.Recv != nil
 		if !c.Check(inPipeline, "R-C02-6", cl.cons+"|caller of the flow loop is a Pipeline method", pos(c, cl.calls[0]),
 			"called from a method of the pipeline package", "the flow loop is called from outside Pipeline's handler methods: flows can be executed without the before/main/after discipline") {
+			continue
+		}
+		if fieldForm {
+			if c02CallerFields(c, a, cl, flowIdx) == 2 {
+				with2++
+			}
 			continue
 		}
 		if c02Caller1(c, a, cl, flowIdx, strIdx, boolIdx, sig.Results().Len()) == 2 {
@@ -105,6 +149,17 @@ func c02Caller1(c *core.Ctx, a *c02Anchors, cl *c02Caller, flowIdx, strIdx, bool
 	var namedRes types.Object // the handler's named string result, if any
 	if fd.Type.Results != nil && len(fd.Type.Results.List) == 1 && len(fd.Type.Results.List[0].Names) == 1 {
 		namedRes = f.Info.Defs[fd.Type.Results.List[0].Names[0]]
+	}
+	// the staged form: one call site inside a loop over a literal list of the pipelines
+	if len(cl.calls) == 1 && len(enclosingLoops(f.Body, cl.calls[0])) > 0 {
+		var names []string
+		var objs []types.Object
+		for _, r := range order {
+			names = append(names, r.name)
+			objs = append(objs, r.obj)
+		}
+		c02CallerStaged(c, a, cl, d, names, objs, namedRes, flowIdx, strIdx, boolIdx, nres)
+		return len(pparams)
 	}
 	pm := parentMap(f.Body)
 	var sawObj, resObj types.Object
@@ -328,6 +383,30 @@ func c02Caller1(c *core.Ctx, a *c02Anchors, cl *c02Caller, flowIdx, strIdx, bool
 func c02Origins(f *flow.Func, e ast.Expr) map[*types.Var]bool {
 	out := map[*types.Var]bool{}
 	seen := map[types.Object]bool{}
+	// the body of the same-package function a variable belongs to
+	bodyOf := func(o types.Object) ast.Node {
+		for _, file := range f.Pkg.Syntax {
+			for _, dcl := range file.Decls {
+				if fd, ok := dcl.(*ast.FuncDecl); ok && fd.Body != nil && fd.Pos() <= o.Pos() && o.Pos() <= fd.End() {
+					return fd
+				}
+			}
+		}
+		return f.Node
+	}
+	// the expressions a same-package callee returns at result index idx
+	returned := func(call *ast.CallExpr, idx int) []ast.Expr {
+		fo, ok := f.Callee(call).(*types.Func)
+		if !ok || fo.Pkg() != f.Pkg.Types {
+			return nil
+		}
+		fd := declOf(f.Pkg, fo)
+		if fd == nil {
+			return nil
+		}
+		rets, _ := (&c02Defs{f: f}).returnsOf(flow.NewFunc(f.Pkg, fd), idx)
+		return rets
+	}
 	var visit func(e ast.Expr)
 	visit = func(e ast.Expr) {
 		ast.Inspect(e, func(n ast.Node) bool {
@@ -338,21 +417,52 @@ func c02Origins(f *flow.Func, e ast.Expr) map[*types.Var]bool {
 						out[v] = true
 					}
 				}
+			case *ast.CallExpr:
+				// a helper's single result: what it returns
+				for _, r := range returned(x, 0) {
+					if sig, ok := f.Info.Types[x].Type.(*types.Tuple); !ok || sig.Len() == 1 {
+						visit(r)
+					}
+				}
 			case *ast.Ident:
 				o := f.Info.Uses[x]
+				if o == nil {
+					o = f.Info.Defs[x]
+				}
 				v, ok := o.(*types.Var)
 				if !ok || v.IsField() || seen[o] {
 					return true
 				}
 				seen[o] = true
-				for _, as := range c02Assigns(f, f.Body, o) {
+				for _, as := range c02Assigns(f, bodyOf(o), o) {
 					if len(as.Lhs) == len(as.Rhs) {
 						for i, l := range as.Lhs {
 							if c02Obj(f, l) == o {
 								visit(as.Rhs[i])
 							}
 						}
-					} else {
+						continue
+					}
+					tuple := false
+					if len(as.Rhs) == 1 {
+						if call, ok := ast.Unparen(as.Rhs[0]).(*ast.CallExpr); ok {
+							for i, l := range as.Lhs {
+								if c02Obj(f, l) == o {
+									if rets := returned(call, i); len(rets) > 0 {
+										tuple = true
+										for _, r := range rets {
+											visit(r)
+										}
+										// arguments and receiver may carry the origin too
+										for _, arg := range call.Args {
+											visit(arg)
+										}
+									}
+								}
+							}
+						}
+					}
+					if !tuple {
 						for _, r := range as.Rhs {
 							visit(r)
 						}
@@ -502,4 +612,542 @@ func c02GlobalFilterWiring(c *core.Ctx, a *c02Anchors) {
 		}
 	}
 	c.RequireCount("R-C02-5", "call sites of the before/after handler", sites, 1)
+}
+
+// c02CallerStaged decides R-C02-5 for a handler that runs the flows from one call site inside a
+// loop over a literal list of the pipelines (`for _, stage := range [...]*Pipeline{before, p, after}`):
+// the list is (before, main, after) in that order; a stage is passed over only when it is nil (or END
+// was reported), the call is reached only with a non-nil stage and no END reported, at most once per
+// stage, and the loop is left early only after END was reported.
+func c02CallerStaged(c *core.Ctx, a *c02Anchors, cl *c02Caller, d *c02Defs, names []string, objs []types.Object, namedRes types.Object, flowIdx, strIdx, boolIdx, nres int) {
+	f, cons, call := cl.f, cl.cons, cl.calls[0]
+	fd := f.Node.(*ast.FuncDecl)
+	loops := enclosingLoops(f.Body, call)
+	lp := c02LoopOf(f, loops[len(loops)-1])
+	if len(loops) != 1 || lp == nil || lp.reverse {
+		c.Undecide("R-C02-5", cons+"|flow order", pos(c, call), "the flow loop is called from a loop that is not a forward loop over a list of pipelines")
+		return
+	}
+	lit, ok := d.alias(lp.X).(*ast.CompositeLit)
+	if !ok {
+		c.Undecide("R-C02-5", cons+"|flow order", pos(c, lp.stmt), "the flow loop is called from a loop over something other than a literal list of pipelines")
+		return
+	}
+	var got []types.Object
+	for _, el := range lit.Elts {
+		if _, isKV := el.(*ast.KeyValueExpr); isKV {
+			c.Undecide("R-C02-5", cons+"|flow order", pos(c, lit), "keyed list of pipelines")
+			return
+		}
+		o := d.rootObj(el)
+		if o == nil {
+			c.Undecide("R-C02-5", cons+"|flow order", pos(c, el), "an element of the list of pipelines is not a variable")
+			return
+		}
+		got = append(got, o)
+	}
+	// order and completeness of the stages
+	idx := map[types.Object]int{}
+	for i, o := range objs {
+		idx[o] = i
+	}
+	okOrder := len(got) == len(objs)
+	seen := map[types.Object]bool{}
+	last := -1
+	why := ""
+	for _, o := range got {
+		i, known := idx[o]
+		switch {
+		case !known:
+			c.Undecide("R-C02-5", cons+"|flow order", pos(c, lit), "the list of pipelines contains a variable that is neither the receiver nor a before/after parameter")
+			return
+		case seen[o]:
+			okOrder, why = false, "the "+names[i]+" flow is listed twice: it runs twice for one request"
+		case i < last:
+			okOrder, why = false, "the "+names[i]+" flow is listed after the "+names[last]+" flow (order must be before → main → after)"
+		}
+		seen[o] = true
+		if i > last {
+			last = i
+		}
+	}
+	for i, o := range objs {
+		if !seen[o] && why == "" {
+			okOrder, why = false, "the "+names[i]+" flow is not in the list of stages: it never runs"
+		}
+	}
+	c.Check(okOrder, "R-C02-5", cons+"|stages listed in the order before → main → after", pos(c, lit),
+		"the handler loops over the literal list (before, receiver, after)", why)
+	if !okOrder {
+		return
+	}
+	// the flow handed over is the stage's own flow
+	base, isFlow := d.fieldSel(call.Args[flowIdx], a.fFlow)
+	if !isFlow || !lp.elem(d, base) {
+		c.Violate("R-C02-5", cons+"|each run uses a pipeline's own flow", pos(c, call), "the flow handed to the flow loop is not the flow field of the stage of this iteration")
+		return
+	}
+	if lp.key != nil && d.n[lp.key] != map[bool]int{true: 2, false: 1}[lp.indexed] || lp.val != nil && d.n[lp.val] != 1 {
+		c.Violate("R-C02-5", cons+"|stages listed in the order before → main → after", pos(c, lp.stmt), "the loop variable of the stage loop is assigned in the body: stages can be repeated or passed over")
+		return
+	}
+	as, isAs := d.parent(call).(*ast.AssignStmt)
+	if !isAs || len(as.Lhs) != nres {
+		c.Violate("R-C02-5", cons+"|flow results used", pos(c, call), "the results of the flow run are discarded")
+		return
+	}
+	resObj := c02Obj(f, as.Lhs[strIdx])
+	sawID, _ := ast.Unparen(as.Lhs[boolIdx]).(*ast.Ident)
+	if sawID == nil || sawID.Name == "_" {
+		c.Violate("R-C02-5", cons+"|END of a flow is honoured", pos(c, call), "the bool result (END seen) of the flow run is discarded: an END in one flow does not stop the flows after it")
+		return
+	}
+	sawKey := f.VarKey(sawID)
+	// the stage expression whose nil-ness gates the call
+	var stageNil []string
+	ast.Inspect(lp.body, func(n ast.Node) bool {
+		if e, ok := n.(ast.Expr); ok && lp.elem(d, e) {
+			stageNil = append(stageNil, f.NilKey(e))
+		}
+		return true
+	})
+	isNil := func(st *flow.State, v flow.Val) bool {
+		for _, k := range stageNil {
+			if st.Is(k, v) {
+				return true
+			}
+		}
+		return false
+	}
+	const (
+		evIn  = "ev:stage:in"
+		evRan = "ev:stage:ran"
+	)
+	var badSkip, badLeave *flow.State
+	res := analyze(c, f, flow.Config{
+		OnBlock: func(st *flow.State, b *cfg.Block) {
+			if b.Stmt != lp.stmt {
+				return
+			}
+			switch b.Kind {
+			case lp.bodyKind:
+				st.Set(evIn, flow.True)
+				st.Set(evRan, flow.False)
+			case lp.backKind:
+				if st.Is(evIn, flow.True) && !st.Is(evRan, flow.True) && !isNil(st, flow.True) && !st.Is(sawKey, flow.True) && badSkip == nil {
+					badSkip = st
+				}
+				st.Set(evIn, flow.False)
+			case lp.doneKind:
+				if st.Is(evIn, flow.True) && !st.Is(sawKey, flow.True) && badLeave == nil {
+					badLeave = st
+				}
+				st.Set(evIn, flow.False)
+			}
+		},
+		OnCall: func(st *flow.State, cc *ast.CallExpr, callee types.Object, deferred bool) {
+			if cc == call {
+				st.Set(evRan, flow.True)
+			}
+		},
+	})
+	if res == nil {
+		return
+	}
+	states := res.At[call]
+	var bad *flow.State
+	why = ""
+	for _, st := range states {
+		switch {
+		case st.Is(evRan, flow.True):
+			bad, why = st, "a stage's flow can run twice in one iteration"
+		case !isNil(st, flow.False):
+			bad, why = st, "a stage's flow is run without the stage being known non-nil (nil dereference when no global filter supplies it)"
+		case !st.Is(sawKey, flow.False):
+			bad, why = st, "a stage's flow runs although an earlier flow may have reported END: something runs after END"
+		}
+		if bad != nil {
+			break
+		}
+	}
+	if len(states) == 0 {
+		bad, why = nil, "the flow run is unreachable"
+		c.Violate("R-C02-5", cons+"|staged flows gated correctly", pos(c, call), why)
+	} else {
+		c.Check(bad == nil, "R-C02-5", cons+"|staged flows gated correctly", pos(c, call),
+			sprintf("%d states at the call: stage non-nil, no END reported, once per stage", len(states)), why, witness(bad)...)
+	}
+	c.Check(badSkip == nil, "R-C02-5", cons+"|a flow is skipped only when absent or after END", pos(c, lp.stmt),
+		"an iteration that does not run its stage has a nil stage or END reported",
+		"the stage loop passes over a stage that is present although no flow reported END: that flow does not run", witness(badSkip)...)
+	// early exits of the function from inside the loop count as leaving it
+	var badRet *flow.Exit
+	for _, ex := range res.Exits {
+		if ex.Kind != flow.ExitReturn {
+			continue
+		}
+		if ex.State.Is(evIn, flow.True) && !ex.State.Is(sawKey, flow.True) && badLeave == nil {
+			badLeave = ex.State
+		}
+		switch {
+		case ex.Return != nil && len(ex.Return.Results) == 1 && c02Obj(f, ex.Return.Results[0]) == resObj:
+		case (ex.Return == nil || len(ex.Return.Results) == 0) && namedRes != nil && namedRes == resObj:
+		default:
+			badRet = ex
+		}
+	}
+	c.Check(badLeave == nil, "R-C02-5", cons+"|stage loop left early only after END", pos(c, lp.stmt),
+		"the loop over the stages is left early only with END reported",
+		"the loop over the stages is left before all stages were visited although no flow reported END: the remaining flows do not run", witness(badLeave)...)
+	writersOK := resObj != nil && !d.taken[resObj]
+	for _, w := range c02Assigns(f, f.Body, resObj) {
+		for i, l := range w.Lhs {
+			if c02Obj(f, l) != resObj {
+				continue
+			}
+			good := w == as && i == strIdx
+			if len(w.Lhs) == len(w.Rhs) {
+				if v, ok := c02ConstString(f, w.Rhs[i]); ok && v == "" {
+					good = true
+				}
+			}
+			if !good {
+				writersOK = false
+			}
+		}
+	}
+	var wit []string
+	if badRet != nil {
+		wit = append([]string{"exit at " + pos(c, badRet.At)}, witness(badRet.State)...)
+	}
+	c.Check(badRet == nil && writersOK, "R-C02-4", cons+"|result of the last flow run is returned", pos(c, fd),
+		"the handler returns the variable that every flow run assigns its string result to",
+		"the handler does not return the string result of the last flow it ran (other writer, or another value returned)", wit...)
+}
+
+// c02CallerFields is c02Caller1 for the field form: the flow loop is a method of a run-state struct
+// that keeps the result and the END flag in fields (`run.exec(flow)`; `run.sawEnd`, `run.result`).
+func c02CallerFields(c *core.Ctx, a *c02Anchors, cl *c02Caller, flowIdx int) int {
+	f, cons := cl.f, cl.cons
+	fd := f.Node.(*ast.FuncDecl)
+	d := c02NewDefs(f)
+	var recvObj types.Object
+	if fd.Recv != nil && len(fd.Recv.List) == 1 && len(fd.Recv.List[0].Names) == 1 {
+		recvObj = f.Info.Defs[fd.Recv.List[0].Names[0]]
+	}
+	type role struct {
+		name  string
+		obj   types.Object
+		ident *ast.Ident
+		call  *ast.CallExpr
+	}
+	var order []*role
+	var pparams []*ast.Ident
+	for _, fl := range fd.Type.Params.List {
+		for _, id := range fl.Names {
+			if o := f.Info.Defs[id]; o != nil && c02IsNamed(o.Type(), Mod+c02pl, "Pipeline") {
+				pparams = append(pparams, id)
+			}
+		}
+	}
+	switch len(pparams) {
+	case 0:
+		order = []*role{{name: "main", obj: recvObj}}
+	case 2:
+		order = []*role{{name: "before", obj: f.Info.Defs[pparams[0]], ident: pparams[0]}, {name: "main", obj: recvObj}, {name: "after", obj: f.Info.Defs[pparams[1]], ident: pparams[1]}}
+	default:
+		c.Undecide("R-C02-5", cons+"|flow order", pos(c, fd), sprintf("caller of the flow loop with %d *Pipeline parameters (expected 0 or 2)", len(pparams)))
+		return len(pparams)
+	}
+	// the run state all stages share
+	runN := ""
+	var runRoot types.Object
+	for _, call := range cl.calls {
+		sel, ok := ast.Unparen(call.Fun).(*ast.SelectorExpr)
+		if !ok || len(enclosingLoops(f.Body, call)) > 0 {
+			c.Undecide("R-C02-5", cons+"|flow order", pos(c, call), "the flow loop is not called as a method of a run-state value outside loops")
+			return len(pparams)
+		}
+		root := d.rootObj(sel.X)
+		if root == nil || d.n[root] != 1 {
+			c.Undecide("R-C02-5", cons+"|flow order", pos(c, call), "the run state is not a local assigned exactly once")
+			return len(pparams)
+		}
+		if runN != "" && d.norm(sel.X) != runN {
+			c.Violate("R-C02-5", cons+"|all flows share one run state", pos(c, call), "the flows are run on different run-state values: END seen by one flow and its result are invisible to the next")
+			return len(pparams)
+		}
+		runN, runRoot = d.norm(sel.X), root
+		base, isFlow := d.fieldSel(call.Args[flowIdx], a.fFlow)
+		var r *role
+		if isFlow {
+			bo := c02Obj(f, d.alias(base))
+			for _, x := range order {
+				if x.obj != nil && x.obj == bo {
+					r = x
+				}
+			}
+		}
+		if r == nil {
+			c.Violate("R-C02-5", cons+"|each run uses a pipeline's own flow", pos(c, call), "the flow handed to the flow loop is not the flow field of the receiver or of a before/after pipeline parameter")
+			return len(pparams)
+		}
+		if r.call != nil {
+			c.Violate("R-C02-5", cons+"|"+r.name+" flow runs at most once", pos(c, call), "the "+r.name+" flow is handed to the flow loop at two call sites")
+			return len(pparams)
+		}
+		r.call = call
+	}
+	for _, r := range order {
+		if r.call == nil {
+			c.Violate("R-C02-5", cons+"|"+r.name+" flow runs", pos(c, fd), "the "+r.name+" flow is never handed to the flow loop")
+			return len(pparams)
+		}
+	}
+	// readers of the END flag and of the result on that run state
+	var sawKeys []string
+	ast.Inspect(f.Body, func(n ast.Node) bool {
+		if sel, ok := n.(*ast.SelectorExpr); ok {
+			if sl := f.Info.Selections[sel]; sl != nil && sl.Obj() == types.Object(a.sawField) && d.norm(sel.X) == runN {
+				sawKeys = append(sawKeys, f.VarKey(sel))
+			}
+		}
+		return true
+	})
+	if len(order) > 1 && len(sawKeys) == 0 {
+		c.Violate("R-C02-5", cons+"|END of a flow is honoured", pos(c, fd), "the END flag of the run state is never read: an END in one flow does not stop the flows after it")
+		return len(pparams)
+	}
+	sawIs := func(st *flow.State, v flow.Val) bool {
+		for _, k := range sawKeys {
+			if st.Is(k, v) {
+				return true
+			}
+		}
+		return false
+	}
+	// the END flag starts false: the run state is a fresh value whose literal does not set it
+	var freshLit func(e ast.Expr, depth int) bool
+	freshLit = func(e ast.Expr, depth int) bool {
+		e = ast.Unparen(e)
+		if u, ok := e.(*ast.UnaryExpr); ok && u.Op == token.AND {
+			e = ast.Unparen(u.X)
+		}
+		switch x := e.(type) {
+		case *ast.CompositeLit:
+			for _, el := range x.Elts {
+				kv, ok := el.(*ast.KeyValueExpr)
+				if !ok {
+					return false // positional literal
+				}
+				if k, ok := kv.Key.(*ast.Ident); ok && f.Info.Uses[k] == types.Object(a.sawField) {
+					tv := f.Info.Types[kv.Value]
+					if tv.Value == nil || tv.Value.ExactString() != "false" {
+						return false
+					}
+				}
+			}
+			return true
+		case *ast.CallExpr:
+			if b, ok := f.Callee(x).(*types.Builtin); ok && b.Name() == "new" {
+				return true
+			}
+			if fo, ok := f.Callee(x).(*types.Func); ok && fo.Pkg() == f.Pkg.Types && depth < 2 {
+				if hd := declOf(f.Pkg, fo); hd != nil {
+					h := flow.NewFunc(f.Pkg, hd)
+					hdefs := c02NewDefs(h)
+					rets, ok := hdefs.returnsOf(h, 0)
+					if !ok {
+						return false
+					}
+					for _, r := range rets {
+						if !freshLit(hdefs.alias(r), depth+1) {
+							return false
+						}
+					}
+					return true
+				}
+			}
+		}
+		return false
+	}
+	var runDef ast.Node
+	initFalse := false
+	ast.Inspect(f.Body, func(n ast.Node) bool {
+		switch x := n.(type) {
+		case *ast.AssignStmt:
+			for i, l := range x.Lhs {
+				if c02Obj(f, l) == runRoot && len(x.Lhs) == len(x.Rhs) {
+					runDef, initFalse = x, freshLit(x.Rhs[i], 0)
+				}
+			}
+		case *ast.ValueSpec:
+			for i, id := range x.Names {
+				if f.Info.Defs[id] == runRoot {
+					runDef = x
+					initFalse = len(x.Values) == 0 || (i < len(x.Values) && freshLit(x.Values[i], 0))
+				}
+			}
+		}
+		return true
+	})
+	if runDef == nil || !initFalse {
+		c.Undecide("R-C02-5", cons+"|flow order", pos(c, fd), "cannot establish that the END flag of the run state starts false (the run state is not a fresh literal / new(T) / zero value)")
+		return len(pparams)
+	}
+	roleOf := map[*ast.CallExpr]int{}
+	for i, r := range order {
+		roleOf[r.call] = i
+	}
+	ev := func(i int) string { return "ev:run:" + order[i].name }
+	const (
+		evEnd   = "ev:endSeen"   // the flag was found true since the last run (only the flow loop writes it)
+		evFresh = "ev:flagFresh" // no flow has run on the fresh run state yet: the flag is still false
+	)
+	sawIs0 := sawIs
+	sawIs = func(st *flow.State, v flow.Val) bool {
+		if st.Is(evFresh, flow.True) {
+			return v == flow.False
+		}
+		return sawIs0(st, v)
+	}
+	// a path on which the still-fresh flag was assumed true does not exist
+	infeasible := func(st *flow.State) bool {
+		return st.Is("ev:infeasible", flow.True) || (st.Is(evFresh, flow.True) && sawIs0(st, flow.True))
+	}
+	res := analyze(c, f, flow.Config{
+		OnNode: func(st *flow.State, n ast.Node) {
+			if n == runDef {
+				st.Set(evFresh, flow.True)
+			}
+		},
+		OnCall: func(st *flow.State, call *ast.CallExpr, callee types.Object, deferred bool) {
+			if i, ok := roleOf[call]; ok {
+				st.Set(ev(i), flow.True)
+				st.Set(evEnd, flow.False)
+				st.Set(evFresh, flow.False)
+			}
+		},
+		AfterAssume: func(st *flow.State, cond ast.Expr, outcome bool) {
+			if sawIs0(st, flow.True) {
+				if st.Is(evFresh, flow.True) {
+					st.Set("ev:infeasible", flow.True) // the flag of a fresh run state is false
+				} else {
+					st.Set(evEnd, flow.True)
+				}
+			}
+		},
+	})
+	if res == nil {
+		return len(pparams)
+	}
+	anyRan := func(st *flow.State, upto int) bool {
+		for j := 0; j < upto; j++ {
+			if st.Is(ev(j), flow.True) {
+				return true
+			}
+		}
+		return false
+	}
+	for i, r := range order {
+		states := res.At[r.call]
+		name := cons + "|" + r.name + " flow"
+		if len(states) == 0 {
+			c.Violate("R-C02-5", name+" gated correctly", pos(c, r.call), "the "+r.name+" flow run is unreachable")
+			continue
+		}
+		var bad *flow.State
+		why := ""
+		for _, st := range states {
+			if infeasible(st) {
+				continue
+			}
+			switch {
+			case st.Is(ev(i), flow.True):
+				bad, why = st, "the "+r.name+" flow can run twice for one request"
+			case r.ident != nil && !st.Is(f.NilKey(r.ident), flow.False):
+				bad, why = st, "the "+r.name+" flow is run without the "+r.name+" pipeline being known non-nil (nil dereference when no global filter supplies it)"
+			case anyRan(st, len(order)) && !sawIs(st, flow.False):
+				bad, why = st, "the "+r.name+" flow runs although an earlier flow may have reported END: something runs after END"
+			case sawIs(st, flow.True):
+				bad, why = st, "the "+r.name+" flow runs with the END flag set"
+			}
+			for j := range order {
+				if bad != nil {
+					break
+				}
+				if j > i && st.Is(ev(j), flow.True) {
+					bad, why = st, "the "+r.name+" flow runs after the "+order[j].name+" flow (order must be before → main → after)"
+				}
+				if j < i && !st.Is(ev(j), flow.True) && !(order[j].ident != nil && st.Is(f.NilKey(order[j].ident), flow.True)) {
+					bad, why = st, "the "+r.name+" flow runs although the "+order[j].name+" flow was neither run nor absent (nil)"
+				}
+			}
+			if bad != nil {
+				break
+			}
+		}
+		c.Check(bad == nil, "R-C02-5", name+" gated correctly", pos(c, r.call),
+			sprintf("%d states at the call: earlier flows ran or are nil, no END reported, pipeline non-nil, not run before", len(states)), why, witness(bad)...)
+	}
+	var badExit, badRet *flow.Exit
+	whyExit := ""
+	nexits := 0
+	for _, ex := range res.Exits {
+		if ex.Kind != flow.ExitReturn {
+			continue
+		}
+		st := ex.State
+		if infeasible(st) {
+			continue
+		}
+		nexits++
+		for i, r := range order {
+			if st.Is(ev(i), flow.True) {
+				continue
+			}
+			if r.ident != nil && st.Is(f.NilKey(r.ident), flow.True) {
+				continue
+			}
+			if anyRan(st, i) && (sawIs(st, flow.True) || st.Is(evEnd, flow.True)) {
+				continue
+			}
+			laterRan := false
+			for j := i + 1; j < len(order); j++ {
+				if st.Is(ev(j), flow.True) {
+					laterRan = true
+				}
+			}
+			if laterRan {
+				continue
+			}
+			if badExit == nil {
+				badExit, whyExit = ex, "the handler returns without having run the "+r.name+" flow although its pipeline is not nil and no flow reported END"
+			}
+		}
+		okRet := false
+		if ex.Return != nil && len(ex.Return.Results) == 1 {
+			if sel, ok := ast.Unparen(ex.Return.Results[0]).(*ast.SelectorExpr); ok {
+				if sl := f.Info.Selections[sel]; sl != nil && sl.Obj() == types.Object(a.resField) && d.norm(sel.X) == runN {
+					okRet = true
+				}
+			}
+		}
+		if !okRet {
+			badRet = ex
+		}
+	}
+	exw := func(ex *flow.Exit) []string {
+		if ex == nil {
+			return nil
+		}
+		return append([]string{"exit at " + pos(c, ex.At)}, witness(ex.State)...)
+	}
+	c.RequireCount("R-C02-5", "exits of "+cons, nexits, 1)
+	c.Check(badExit == nil, "R-C02-5", cons+"|a flow is skipped only when absent or after END", pos(c, fd),
+		sprintf("%d exits: every flow ran, or its pipeline is nil, or END was reported", nexits), whyExit, exw(badExit)...)
+	c.Check(badRet == nil, "R-C02-4", cons+"|result of the last flow run is returned", pos(c, fd),
+		"the handler returns the result field of the run state every flow run writes",
+		"the handler does not return the result field of the run state the flows were run on", exw(badRet)...)
+	return len(pparams)
 }
